@@ -131,6 +131,50 @@ def _propagate_copies(fn: ast.AST) -> None:
     do_block(fn.body)
 
 
+def _inline_local_procs(fn: ast.AST) -> None:
+    """a local procedure (`def move(bound, outside): xn[outside] = bound[outside]; ..` - statements only, no result) that is only
+    ever called as a statement `move(a, b)` is expanded at its calls: the parameters become temporaries bound to the arguments, the
+    captured names are the same names (the closure reads them at call time, which is where the expansion stands)."""
+    counter = [0]
+
+    def process(block: List[ast.stmt]) -> bool:
+        for k, d in enumerate(block):
+            if not (isinstance(d, ast.FunctionDef) and not d.decorator_list and not d.args.defaults and not d.args.vararg and not d.args.kwarg and not d.args.kwonlyargs):
+                continue
+            body = [x for x in d.body if not (isinstance(x, ast.Expr) and isinstance(x.value, ast.Constant))]
+            if not body or any(isinstance(x, (ast.Return, ast.Yield, ast.YieldFrom, ast.FunctionDef, ast.Lambda, ast.Nonlocal, ast.Global)) for b_ in body for x in ast.walk(b_)):
+                continue
+            params = [a.arg for a in d.args.posonlyargs + d.args.args]
+            if any(isinstance(x, ast.Name) and x.id in params and isinstance(x.ctx, ast.Store) for b_ in body for x in ast.walk(b_)):
+                continue
+            # every mention of the name: a direct call that is a whole statement, in this block after the def
+            mentions = [n for n in ast.walk(fn) if isinstance(n, ast.Name) and n.id == d.name and isinstance(n.ctx, ast.Load)]
+            sites = [(i, st) for i, st in enumerate(block) if i > k and isinstance(st, ast.Expr) and isinstance(st.value, ast.Call) and isinstance(st.value.func, ast.Name)
+                     and st.value.func.id == d.name and not st.value.keywords and len(st.value.args) == len(params)
+                     and not any(isinstance(a, ast.Starred) for a in st.value.args)]
+            if not sites or len(sites) != len(mentions):
+                continue
+            for i, st in sorted(sites, key=lambda x: -x[0]):
+                counter[0] += 1
+                ren = {p_: f"__proc{counter[0]}_{p_}" for p_ in params}
+                pre = [ast.copy_location(ast.Assign(targets=[ast.Name(id=ren[p_], ctx=ast.Store())], value=a), st) for p_, a in zip(params, st.value.args)]
+                new_body = [_Rename(dict(ren)).visit(copy.deepcopy(b_)) for b_ in body]
+                block[i:i + 1] = pre + new_body
+            del block[k]
+            return True
+        for st in block:
+            for fld in ("body", "orelse", "finalbody"):
+                sub = getattr(st, fld, None)
+                if isinstance(sub, list) and sub and isinstance(sub[0], ast.stmt) and not isinstance(st, (ast.FunctionDef, ast.AsyncFunctionDef, ast.ClassDef)):
+                    if process(sub):
+                        return True
+        return False
+    for _ in range(6):
+        if not process(fn.body):
+            break
+    ast.fix_missing_locations(fn)
+
+
 def _sink_temp_copies(fn: ast.AST) -> None:
     """`if c: t = a  else: t = b` directly followed by `x = t`, t an expansion temporary read nowhere else: the branches store to x
     themselves (`x = a` / `x = b`); a resulting `x = x` is dropped.  (The result variable of an expanded helper with early returns.)"""
@@ -482,6 +526,27 @@ class Inliner:
             return ctor
         if call is None:
             return None
+        # `helper(*t)` with t a local holding the helper's n positional arguments: unpack t first (`a0, a1, a2 = t`)
+        if len(call.args) == 1 and isinstance(call.args[0], ast.Starred) and isinstance(call.args[0].value, ast.Name) and not call.keywords and depth <= 3:
+            cal_, rs_ = self._target(fi, call)
+            if cal_ is not None:
+                a_ = cal_.node.args
+                names_ = [x.arg for x in a_.posonlyargs + a_.args]
+                if cal_.cls is not None and not cal_.is_static and names_ and names_[0] in ("self", "cls"):
+                    names_ = names_[1:]
+                if names_ and not a_.defaults and not a_.vararg and not a_.kwarg and not a_.kwonlyargs:
+                    self.counter += 1
+                    temps = [f"__inl{self.counter}_s{k}" for k in range(len(names_))]
+                    pre = ast.copy_location(ast.Assign(targets=[ast.Tuple(elts=[ast.Name(id=t_, ctx=ast.Store()) for t_ in temps], ctx=ast.Store())],
+                                                       value=call.args[0].value), st)
+                    st2 = copy.deepcopy(st)
+                    c2 = st2.value
+                    c2.args = [ast.Name(id=t_, ctx=ast.Load()) for t_ in temps]
+                    ast.fix_missing_locations(pre)
+                    ast.fix_missing_locations(st2)
+                    rep2 = self.expand_stmt(fi, st2, depth + 1)
+                    if rep2 is not None:
+                        return [pre] + rep2
         callee, recv_self = self._target(fi, call)
         if callee is None:
             return None
@@ -925,6 +990,7 @@ class Inliner:
                 _slt(ast.Module(body=[new], type_ignores=[]))
                 new = _FoldLiteralTests().visit(new)
                 new = _SplitTupleAssign().visit(new)
+                _inline_local_procs(new)
                 _propagate_copies(new)
                 _sink_temp_copies(new)
                 from .model import _sink_returns, _unflag_loops
